@@ -289,6 +289,24 @@ func altKey(e *Engine, a *alt) string {
 	return fmt.Sprintf("%x.%x.%d.%d.%d.%d.%d", h.a, h.b, len(a.atoms), len(a.cells), len(a.frame), len(a.defers), imp)
 }
 
+// higherOrderStd: small standard-library search helpers that take the predicate as a function value. Kept
+// opaque they would hide the predicate (the only content of `slices.IndexFunc(xs, func(x) bool {...})`), so they
+// are interpreted like the hand-written loop they replace.
+func higherOrderStd(fn *ssa.Function) bool {
+	o := fn
+	if fn.Origin() != nil {
+		o = fn.Origin()
+	}
+	if o.Pkg == nil || o.Pkg.Pkg.Path() != "slices" {
+		return false
+	}
+	switch o.Name() {
+	case "IndexFunc", "ContainsFunc":
+		return true
+	}
+	return false
+}
+
 func (e *Engine) inScope(fn *ssa.Function) bool {
 	if fn == nil || fn.Blocks == nil {
 		return false
